@@ -2612,11 +2612,12 @@ static WUR iwrc _lx_del_sblk_lw(struct iwlctx *lx, struct sblk *sblk, uint8_t id
   iwrc rc;
   struct iwdb *db = lx->db;
   struct kvblk *kvblk = sblk->kvblk;
-  blkn_t sblk_blkn = ADDR2BLK(sblk->addr);
+  const off_t sblk_addr = sblk->addr; // `sblk` may live in the block ring reused by the lookup below
+  blkn_t sblk_blkn = ADDR2BLK(sblk_addr);
 
   _lx_release_mm(lx, 0);
   lx->nlvl = sblk->lvl;
-  lx->upper_addr = sblk->addr;
+  lx->upper_addr = sblk_addr;
 
   rc = _lx_find_bounds(lx);
   RCRET(rc);
@@ -2657,7 +2658,7 @@ static WUR iwrc _lx_del_sblk_lw(struct iwlctx *lx, struct sblk *sblk, uint8_t id
   pthread_spin_lock(&db->cursors_slk);
   for (struct iwkv_cursor *cur = db->cursors; cur; cur = cur->next) {
     if (cur->cn && !(cur->cn->flags & SBLK_DB)) { // cursors parked on the db head/tail reload it on their next move
-      if (cur->cn->addr == sblk->addr) {
+      if (cur->cn->addr == sblk_addr) {
         if (nb->flags & SBLK_DB) {
           if (!(lx->plower[0]->flags & SBLK_DB)) {
             memcpy(cur->cn, lx->plower[0], sizeof(*cur->cn));
@@ -2892,6 +2893,15 @@ finish:
     if (cur->cn) {
       _sblk_release(lx, &cur->cn);
     }
+  }
+  if (cur->cn && (cur->cn != &cur->cnb)) {
+    // `cn` was handed out from the ring of blocks of the lookup context, which is reused
+    // by later lookups of this cursor: keep the current node in storage owned by the cursor
+    memcpy(&cur->cnb, cur->cn, sizeof(cur->cnb));
+    cur->cn = &cur->cnb;
+  }
+  if (cur->cn) {
+    cur->cn->kvblk = 0; // same for the data block descriptor: reloaded on demand
   }
   return rc;
 }
@@ -4148,7 +4158,6 @@ iwrc iwkv_cursor_del(struct iwkv_cursor *cur, iwkv_opflags opflags) {
     rc = _kvblk_key_get(sblk->kvblk, mm, sblk->pi[cur->cnpos], &key);
     fsm->release_mmap(fsm);
     RCGO(rc, finish2);
-
     lx->key = &key;
     rc = _lx_del_sblk_lw(lx, sblk, cur->cnpos);
     lx->key = 0;
